@@ -44,6 +44,7 @@ def body(shape, k, sel):
     with rt.island():
         w = schedworld.world(shape)
         w.reset()
+        w.fsm.archive_deactivates = True
         hs = []
         expect_rid = {}  # tag -> ('given', n) | ('fresh',)
         seen_rids = set()
@@ -217,8 +218,8 @@ INFO = {
     'rule': 'one case = one event history; non-trivial = a task, an abort or a stale registration was observed',
     'functions': ['pl.farm.Hand._process', 'Hand._reg', 'Hand.notify', 'Hand.do', 'Hand.connectionLost', 'pl.farm.dispatch', 'pl.farm.notify_all', 'pl.farm.something_to_do',
                   'pl.farm.rerunid', 'pl.farm._put', 'pl.farm._cluster_sort', 'pl.farm._workers_sort', 'pl.message.make/send/dumps'],
-    'bounds': {'quick': 'graph task->regression, target T1/T2, histories of <=5 events from 12 kinds', 'thorough': 'same + task->analysis graph, histories of <=6 events'},
-    'assumptions': ['fake transports; db.next is a counter (the real shelve.next is covered by C08); context.fsm is a two-flag fake (active, waiting-on-crew false)',
+    'bounds': {'quick': 'graph task->regression, target T1/T2, histories of <=5 events from 12 kinds; directed 7-event histories (two workers, a unit completes with new data, then 2 free events)', 'thorough': 'same + task->analysis graph, histories of <=6 events'},
+    'assumptions': ['archiving_trigger() of the fake life-cycle machine makes the pipeline inactive until a FLIP event (the real machine leaves running); fake transports; db.next is a counter (the real shelve.next is covered by C08); context.fsm is a two-flag fake (active, waiting-on-crew false)',
                     'one register per worker connection (worker.cluster.execute); replies arrive on fresh connections'],
     'outside': ['cloud (AWS) agency', 'longer histories', 'more than ~4 concurrent workers (bounded by history length)'],
 }
@@ -236,6 +237,14 @@ def obligations(tier):
             for b in range(n):
                 out.append(ob.make(f'{shape}-k{k}-{a}.{b}', shape, 'vp.harness.c11:body', sig, pre, f"{{'shape': {shape!r}, 'k': {k}, 'sel': [{a}, {b}, {', '.join(free)}]}}",
                                    timeout=900 if tier == 'quick' else 3000, imports=f'from vp.harness import sched\nsched.prepare({shape!r})'))
+        # directed family: two workers, a unit runs and reports new data (the archive flag is set, its
+        # dependent becomes releasable), then free events: covers the tick that decides between archiving and releasing
+        for tag, pref in (('new-data', ['REG r1', 'REG r1', 'REQ a', 'DISPATCH', 'REPLY']), ('new-data-rid', ['REG r1', 'REQ a rid7', 'DISPATCH', 'REPLY', 'REG r1'])):
+            pi = [EVENTS.index(x) for x in pref]
+            fr = ['f0', 'f1'] if tier == 'quick' else ['f0', 'f1', 'f2']
+            out.append(ob.make(f'{shape}-directed-{tag}', shape, 'vp.harness.c11:body', ', '.join(f'{v}: int' for v in fr), [' and '.join(f'0 <= {v} < {n}' for v in fr)],
+                               f"{{'shape': {shape!r}, 'k': {len(pi) + len(fr)}, 'sel': [{', '.join(map(str, pi))}, {', '.join(fr)}]}}",
+                               timeout=900, imports=f'from vp.harness import sched\nsched.prepare({shape!r})'))
         allv = [f'e{i}' for i in range(k)]
         out.append(ob.make(f'{shape}', shape, 'vp.harness.c11:body', ', '.join(f'{v}: int' for v in allv), [' and '.join(f'0 <= {v} < {n}' for v in allv)],
                            f"{{'shape': {shape!r}, 'k': {k}, 'sel': [{', '.join(allv)}]}}", timeout=300, twin=True, imports=f'from vp.harness import sched\nsched.prepare({shape!r})'))
